@@ -24,11 +24,13 @@ EXT = {'v': 'm4v', 'a': 'm4a', 't': 'mp4'}
 def selections(rng, quick):
     out = [None, 'none', 'all', 'playready', 'clearkey', 'marlin', 'playready,clearkey', 'playready-moov', 'playready-cenc',
            'playready-pro', 'clearkey-moov', 'clearkey-cenc', 'playready-pro-cenc', 'playready-moov,clearkey-cenc',
-           'marlin-moov', 'playready-cenc-moov,marlin', 'all-moov', 'all-cenc']
+           'marlin-moov', 'playready-cenc-moov,marlin', 'all-moov', 'all-cenc',
+           # a system with locations before one without (the bare one uses all locations) and the reverse
+           'clearkey-cenc,playready', 'playready-cenc-pro,clearkey', 'marlin-cenc,clearkey,playready-pro', 'clearkey,playready-cenc']
     if not quick:
         systems, locs = ['playready', 'clearkey', 'marlin'], ['pro', 'cenc', 'moov']
         for k in range(1, 4):
-            for combo in itertools.combinations(systems, k):
+            for combo in itertools.permutations(systems, k):
                 for _ in range(3):
                     out.append(','.join(s + ''.join('-' + l for l in rng.sample(locs, rng.randint(0, 3))) for s in combo))
     return list(dict.fromkeys(out))
